@@ -284,8 +284,13 @@ def profile(work, binary, ids, mode, shards):
     return classes, cuts_file, nl
 
 
+# the same defect is listed for C08 under this id (bridgeCall after an outer token write); C09's scenario adds
+# the refund leg of cancelSendToExternal
+SAME_DEFECT_IDS = (SCENARIO_ID, "OuterWriteThenNestedConvert")
+
+
 def known_scenario():
-    return any(SCENARIO_ID in (f if isinstance(f, str) else json.dumps(f)) for f in vlib.known_findings())
+    return any(any(i in (f if isinstance(f, str) else json.dumps(f)) for i in SAME_DEFECT_IDS) for f in vlib.known_findings())
 
 
 def run_c09(work, args):
